@@ -6,6 +6,7 @@ CONSTANTS
   InitBS = 2
   DevInvalSkipsClean = TRUE
   DevZeroBypassesCache = TRUE
+  DevWriteEvictErrLost = TRUE
   TogglePre = TRUE
 INVARIANT Coherent
 INVARIANT DurableAfterFlush
